@@ -562,6 +562,7 @@ func (p *verifC13Pair) check() {
 			}
 		}
 		m.Count("messages_checked", int64(n))
+		m.Cases(n) // one evaluation per message compared end to end (plus one per session)
 	}
 }
 
